@@ -375,6 +375,33 @@ def owner_tops(ctx: Ctx, f: FunctionInfo, depth: int = 0, seen: Optional[Set[str
     return out
 
 
+PURE_ERRORS = {"ValueError", "TypeError", "OverflowError", "ArithmeticError", "ZeroDivisionError", "KeyError", "IndexError",
+               "LookupError", "AttributeError", "UnicodeDecodeError", "UnicodeEncodeError", "UnicodeError"}
+
+
+def pure_guard(ctx: Ctx, f: FunctionInfo, hn: Node) -> bool:
+    """The handler guards a pure computation: its try body calls no function of the package, touches no storage / lock /
+    file / network primitive (only builtins and string / number methods), and the handler names only value errors - there
+    is no storage or parse failure it could hide."""
+    cs = handler_classes(hn.ast)  # type: ignore[arg-type]
+    if not cs or not set(c.split(".")[-1] for c in cs) <= PURE_ERRORS:
+        return False
+    for c in try_body_calls(ctx, f, hn.stmt):
+        if ctx.eff.storage_op(c) or ctx.eff.lock_op(c) or ctx.eff.callees(f, c):
+            return False
+        cal = c.callee
+        if cal is None or cal.kind != "prim":
+            return False
+        nm = cal.name
+        if not (nm.startswith("builtins.") or nm.startswith(("str.", "bytes.", "int.", "float.", "dict.", "list.", "tuple.", "set.", "math."))
+                or (nm.startswith("method.") and nm[7:] in ("get", "items", "keys", "values", "lower", "upper", "strip", "split",
+                                                            "startswith", "endswith", "isdigit", "is_integer", "bit_length"))):
+            return False
+        if nm in ("builtins.open", "builtins.print", "builtins.input", "builtins.exec", "builtins.eval", "builtins.__import__"):
+            return False
+    return True
+
+
 def judged_in_callers(ctx: Ctx, f: FunctionInfo) -> bool:
     """A later-introduced helper that is analysed in place inside at least one KNOWN function: its constructs are judged there.
     A new function nobody known calls (a new public API, a new entry point) is judged as a function of its own."""
@@ -385,7 +412,71 @@ MUTATORS = {"setdefault", "update", "append", "extend", "add", "pop", "clear", "
             "appendleft", "put", "put_nowait", "__setitem__"}
 
 
-def state_writes(ctx: Ctx, f: FunctionInfo) -> List[Tuple[Node, str]]:
+def _load_index(ctx: Ctx) -> Dict[str, List[Tuple[FunctionInfo, ast.stmt, ast.AST]]]:
+    """attribute / global name -> [(function, enclosing statement, Load node)] over the whole package (built once per Ctx)."""
+    idx = getattr(ctx, "_attr_loads", None)
+    if idx is not None:
+        return idx
+    idx = {}
+    for fn in ctx.prog.functions.values():
+        if isinstance(fn.node, ast.Lambda):
+            continue
+        body = fn.node.body if isinstance(fn.node.body, list) else []
+        stack = [(st, st) for st in body]
+        while stack:
+            node, stmt = stack.pop()
+            if isinstance(node, (ast.FunctionDef, ast.AsyncFunctionDef, ast.ClassDef, ast.Lambda)) and node is not stmt:
+                continue  # nested functions are functions of their own
+            if isinstance(node, ast.Attribute) and isinstance(node.ctx, ast.Load):
+                idx.setdefault(node.attr, []).append((fn, stmt, node))
+            elif isinstance(node, ast.Name) and isinstance(node.ctx, ast.Load):
+                idx.setdefault(node.id, []).append((fn, stmt, node))
+            for ch in ast.iter_child_nodes(node):
+                stack.append((ch, ch if isinstance(ch, ast.stmt) else stmt))
+    ctx._attr_loads = idx  # type: ignore[attr-defined]
+    return idx
+
+
+def report_only_state(ctx: Ctx, name: str) -> bool:
+    """Is the attribute / module variable `name` write-only as far as the library's decisions go?  Every read of it is (i) part
+    of a statement that updates it (`self.n += 1`, `self.s[k] = self.s.get(k, 0) + 1`, `self.s.update(...)`), (ii) an argument
+    of a logging call, or (iii) inside a reporting function: `__repr__` / `__str__`, or a function introduced later that no
+    known function calls (an accessor such as stats()).  Counters and timing records qualify; a cache does not (it is read
+    back by the code that filled it)."""
+    for fn, stmt, node in _load_index(ctx).get(name, []):
+        if fn.name in ("__repr__", "__str__"):
+            continue
+        if not ctx.prog.is_known(top_function(fn)) and not owner_tops(ctx, fn):
+            continue
+        # (i) the statement itself stores to / mutates the same name
+        updates = False
+        if isinstance(stmt, (ast.Assign, ast.AugAssign, ast.AnnAssign)):
+            tgs = stmt.targets if isinstance(stmt, ast.Assign) else [stmt.target]
+            for t in tgs:
+                b = t
+                while isinstance(b, (ast.Subscript, ast.Attribute)):
+                    if isinstance(b, ast.Attribute) and b.attr == name:
+                        updates = True
+                    b = b.value
+                if isinstance(b, ast.Name) and b.id == name:
+                    updates = True
+        if isinstance(stmt, ast.Expr) and isinstance(stmt.value, ast.Call) and isinstance(stmt.value.func, ast.Attribute):
+            if stmt.value.func.attr in MUTATORS and any(x is node for x in ast.walk(stmt.value.func.value)):
+                updates = True
+            if (dotted(stmt.value.func) or "").split(".")[0] in ("logger", "logging", "log", "_logger"):
+                updates = True  # (ii) only logged
+        if isinstance(stmt, (ast.With, ast.AsyncWith)) and any(any(x is node for x in ast.walk(it.context_expr)) for it in stmt.items):
+            continue  # `with self._stats_lock:` - the lock guarding the counters
+        if isinstance(stmt, ast.If) and any(x is node for x in ast.walk(stmt.test)) and not stmt.orelse and stmt.body and all(
+                isinstance(b_, ast.Assign) and len(b_.targets) == 1 and isinstance(b_.targets[0], ast.Attribute) and b_.targets[0].attr == name
+                for b_ in stmt.body):
+            continue  # lazy initialisation: `if self.x is None: self.x = {...}`
+        if not updates:
+            return False
+    return True
+
+
+def state_writes(ctx: Ctx, f: FunctionInfo, keep_report_only: bool = False) -> List[Tuple[Node, str]]:
     """Sites where f (its nested functions and the helpers analysed in place included) writes state that outlives the call:
     a store to / in-place mutation of an attribute of `self` / `cls`, of a class of the package (`Table._cache[k] = v`), or of
     a module-level variable (`global X; X = ...`, `_REGISTRY[k] = v`, `_REGISTRY.setdefault(...)`)."""
@@ -433,7 +524,31 @@ def state_writes(ctx: Ctx, f: FunctionInfo) -> List[Tuple[Node, str]]:
                     out.append((n, f"`{norm_text(n.ast)[:50]}`"))
                 elif root in mod_globals and root not in locals_ and not ctx.rd(fn).reaching(n.id, root) and root not in ("logger",):
                     out.append((n, f"module-level `{norm_text(n.ast)[:50]}`"))
-    return out
+    if keep_report_only:
+        return out
+
+    def state_name(n: Node) -> Optional[str]:
+        """the attribute (first one off self / cls / a class) or module variable a write site touches"""
+        a = n.ast
+        e: Optional[ast.AST] = None
+        if isinstance(a, (ast.Assign, ast.Delete)):
+            e = a.targets[0]
+        elif isinstance(a, (ast.AugAssign, ast.AnnAssign)):
+            e = a.target
+        elif isinstance(a, ast.Call) and isinstance(a.func, ast.Attribute):
+            e = a.func.value
+        chain: List[str] = []
+        while isinstance(e, (ast.Attribute, ast.Subscript)):
+            if isinstance(e, ast.Attribute):
+                chain.append(e.attr)
+            e = e.value
+        if isinstance(e, ast.Name):
+            if e.id in ("self", "cls") or e.id in classes:
+                return chain[-1] if chain else None
+            return e.id
+        return None
+
+    return [(n, what) for n, what in out if not ((state_name(n) is not None) and report_only_state(ctx, state_name(n)))]  # type: ignore[arg-type]
 
 
 def effective_compare(ctx: Ctx, f: FunctionInfo, b: Node):
